@@ -5,7 +5,7 @@ from vf import H, C, M
 
 MAP = "ohkami/src/header/map.rs"
 HDR = "ohkami/src/response/headers.rs"
-MODULES = [M(MAP, "harness/C03/map.rs"), M(HDR, "harness/C03/headers.rs")]
+MODULES = [M(MAP, "harness/C03/map.rs"), M(HDR, "harness/C03/headers.rs"), M("ohkami/src/response/mod.rs", "harness/C03/send_block.rs", modname="__verif_c03s")]
 CONTRACTS = []
 
 B = dict(crate="ohkami", tier="quick", strength="bounded", bound="IndexMap instantiated at N = 4, V = u8; arbitrary well-formed state, one harness per number of entries 0..=4 (inductive in the history length)")
@@ -53,6 +53,11 @@ HARNESSES += [
       clauses=["Content-Length == decimal(body length), Content-Type set, size invariant, re-set replaces, drop_content removes both"],
       bound="body lengths 3 and 12 (itoa's full-domain contract is C20)", **RB),
 ]
-TRUSTED = ["Response::send itself is NOT under a discharged contract (a harness over tokio's AsyncWrite for Vec<u8> did not finish in 15 min): "
+HARNESSES += [H(f"c03_send_payload_block_k{k:02d}", functions=["response::Response::send (Content::Payload branch: the serialization block, extracted verbatim)", "response::Response::set_payload", "response::Response::complete", "response::headers::Headers::write_unchecked_to", "push_unchecked!"],
+                clauses=["every raw copy stays inside the reserved allocation (with_capacity(status line + headers.size + body)); exactly that many bytes are produced",
+                         "wire image: status line, header block ending in an empty line, then the body bytes byte-exact; Content-Length == number of body bytes"],
+                bound=f"status 200, headers as set by Response::new + set_payload, body of {k} symbolic byte(s)", crate="ohkami", strength="bounded", timeout=1200, tier="thorough",
+                unwindset={"write_unchecked_to": 8, "4find&IndexMap": 8, "drop_glue": 8}) for k in (2,)]   # measured: 315 s and ~20 GB; the other body lengths are not registered
+TRUSTED = ["the await points of Response::send (write_all, flush) and its None / Stream / WebSocket branches other than what C17 covers are NOT under a discharged contract (a harness over tokio's AsyncWrite for Vec<u8> did not finish in 15 min): "
            "it adds with_capacity(status line + size [+ body]) and two more push_unchecked! around write_unchecked_to, which is verified"]
 ASSUMPTIONS = []
